@@ -589,8 +589,58 @@ func c07Carry(c *core.Ctx) {
 			return
 		}
 	}
+	// (d) a message is built from the params and value of its own issue, also when printing that value runs another execution
+	outerL := []c07Printer{{"a"}, {"b"}}
+	mo := z.Slice(z.CustomFunc(func(p *c07Printer, ctx z.Ctx) bool { return true })).Min(3).Validate(&outerL)
+	c.Eval(1)
+	if len(mo["$root"]) != 1 || mo["$root"][0].Message != "slice must contain at least 3 items" {
+		c.Violation("execution-not-isolated|message-built-during-a-nested-execution", map[string]any{"schema": "Slice(custom Printer).Min(3) validating two Printers whose String() method validates another list with Min(9)", "message": fmt.Sprint(z.Issues.SanitizeMap(mo)), "want": "slice must contain at least 3 items"})
+		return
+	}
+	// (e) the application's own sentinel issue (code, type and message set, no path) returned by transforms of fields of different
+	// schemas: each call files it under its root, none leaves its path behind in the object
+	sentinel := &z.ZogIssue{Code: "taken", Dtype: "string", Message: "already taken"}
+	retS := func(any, z.Ctx) error { return sentinel }
+	for round := 0; round < 3; round++ {
+		for _, key := range []string{"alias", "nick", "login"} {
+			d := map[string]*string{}
+			_ = d
+			var dst struct{ Alias, Nick, Login string }
+			m := z.Struct(z.Schema{key: z.String().PostTransform(retS)}).Parse(map[string]any{key: "x"}, &dst)
+			c.Eval(1)
+			if len(m["$root"]) != 1 || len(m) != 2 || sentinel.Path != "" {
+				c.Violation("execution-not-isolated|path-left-in-the-applications-issue-object", map[string]any{"schema": "{" + key + ": String().PostTransform(returns the sentinel)}", "issue_keys": dKeys(m), "sentinel_path_now": sentinel.Path, "want": "$root, sentinel untouched"})
+				return
+			}
+		}
+	}
+	// (f) a context value set once is gone for good: not after one call, not after 70 000 (run a few times per check)
+	if c.Case < 64*3 {
+		var s0 string
+		z.String().Parse("x", &s0, z.WithCtxValue("tenant", "acme"))
+		leaked := -1
+		probe := z.String().TestFunc(func(v any, ctx z.Ctx) bool { return ctx.Get("tenant") == nil })
+		for i := 0; i < 70000 && leaked < 0; i++ {
+			if l := probe.Parse("x", &s0); len(l) != 0 {
+				leaked = i
+			}
+		}
+		c.Eval(70000)
+		if leaked >= 0 {
+			c.Violation("execution-not-isolated|context-value-reappears", map[string]any{"history": "one call with WithCtxValue(tenant, acme), then calls without context values", "call_that_saw_the_value_again": leaked + 1})
+			return
+		}
+	}
 	c.NonTrivial(fpf("carry|%d", c.Case))
 	c.Count("carry_histories", 1)
+}
+
+type c07Printer struct{ Name string }
+
+func (p c07Printer) String() string {
+	inner := []string{"x"}
+	z.Slice(z.String()).Min(9).Validate(&inner)
+	return "printer " + p.Name
 }
 
 // c07LiveLanguages: "the global configuration at that moment": the language maps handed to i18n are read when an issue is formatted,
